@@ -503,11 +503,11 @@ pub fn run_stress(ctx: &mut Ctx, c: &StressCase) -> Result<(), String> {
                 }
                 match call(&ep, k, t as u32, (j / 4) as u8) {
                     Err(e) => {
-                        *err.lock().unwrap() = Some(format!("thread {t} call {j} ({k:?}): error {e}"));
+                        let _ = err.lock().unwrap().get_or_insert(format!("thread {t} call {j} ({k:?}): error {e}"));
                         return;
                     }
                     Ok(Some(v)) if v != t as u32 => {
-                        *err.lock().unwrap() = Some(format!("thread {t} call {j} ({k:?}) received the answer to request {v}"));
+                        let _ = err.lock().unwrap().get_or_insert(format!("thread {t} call {j} ({k:?}) received the answer to request {v}"));
                         return;
                     }
                     _ => {}
@@ -546,7 +546,7 @@ pub fn run_stress(ctx: &mut Ctx, c: &StressCase) -> Result<(), String> {
 // ------------------------------------------------------------------ stress over every answer-awaiting Frontend operation
 
 /// the conforming answer to any front-end request frame, echoing what identifies the request (None: nothing is sent)
-fn answer_any_fe(f: &spec::Frame) -> Option<(Vec<u8>, usize)> {
+fn answer_any_fe(f: &spec::Frame, seq: &mut u64) -> Option<(Vec<u8>, usize)> {
     use crate::spec::Reply;
     let r = spec::fe_req(f.code)?;
     let nr = f.flags & spec::F_NEED_REPLY != 0;
@@ -559,12 +559,17 @@ fn answer_any_fe(f: &spec::Frame) -> Option<(Vec<u8>, usize)> {
                 None
             }
         }
-        Reply::U64 => rep(spec::b_u64(match f.code {
-            fe::GET_FEATURES => spec::VIRTIO_F_PROTOCOL_FEATURES | 1 << 32,
-            fe::GET_PROTOCOL_FEATURES => 0x3f_ffff,
-            fe::GET_QUEUE_NUM => 0x8000,
-            _ => 32,
-        }), 0),
+        Reply::U64 => {
+            // queries without arguments: every reply is tagged with a serial number in otherwise unused high bits, so
+            // that a reply handed to two callers (or to none) shows
+            *seq += 1;
+            rep(spec::b_u64(match f.code {
+                fe::GET_FEATURES => spec::VIRTIO_F_PROTOCOL_FEATURES | 1 << 32 | (*seq << 34),
+                fe::GET_PROTOCOL_FEATURES => 0x3f_ffff,
+                fe::GET_QUEUE_NUM => 0x8000,
+                _ => 32 | (*seq << 8),
+            }), 0)
+        }
         Reply::VringState => {
             let idx = spec::rd_u32(&f.body, 0);
             rep(spec::b_vring_state(idx, 1000 + idx), 0)
@@ -641,11 +646,12 @@ pub fn run_all_ops_stress(ctx: &mut Ctx, c: &AllOpsCase) -> Result<(), String> {
     let stop2 = stop.clone();
     let responder = std::thread::spawn(move || {
         let mut peer = Peer { sock, buf: Vec::new(), frames: Vec::new(), answered: 0, gpu_seq: 0 };
+        let mut seq = 0u64;
         while !stop2.load(Ordering::Acquire) {
             peer.poll();
             while peer.answered < peer.frames.len() {
                 let fr = peer.frames[peer.answered].clone();
-                if let Some((bytes, nfds)) = answer_any_fe(&fr) {
+                if let Some((bytes, nfds)) = answer_any_fe(&fr, &mut seq) {
                     let fds = crate::srv::fresh_fds(nfds, crate::fdtrack::FdKind::Memfd);
                     let raw: Vec<std::os::fd::RawFd> = fds.iter().map(|x| x.as_raw_fd()).collect();
                     let _ = rawpeer::send_all(peer.sock.as_raw_fd(), &bytes, &raw);
@@ -661,9 +667,10 @@ pub fn run_all_ops_stress(ctx: &mut Ctx, c: &AllOpsCase) -> Result<(), String> {
         }
     });
     let err: Arc<Mutex<Option<String>>> = Arc::new(Mutex::new(None));
+    let tagged: Arc<Mutex<std::collections::HashSet<u64>>> = Arc::new(Mutex::new(std::collections::HashSet::new()));
     let mut hs = Vec::new();
     for t in 0..c.threads as u32 {
-        let (mut f, err, calls, st) = (f.clone(), err.clone(), c.calls, st.clone());
+        let (mut f, err, calls, st, tagged) = (f.clone(), err.clone(), c.calls, st.clone(), tagged.clone());
         hs.push(std::thread::spawn(move || {
             let ops = all_fe_ops(t);
             for j in 0..calls {
@@ -675,12 +682,20 @@ pub fn run_all_ops_stress(ctx: &mut Ctx, c: &AllOpsCase) -> Result<(), String> {
                 let mut lent = crate::feops::make_lent(op);
                 match crate::feops::perform(&mut f, op, &mut lent) {
                     Err(e) => {
-                        *err.lock().unwrap() = Some(format!("thread {t} call {j} {}({op:?}): error {e} although the peer answers every request correctly and in order", op.name()));
+                        let _ = err.lock().unwrap().get_or_insert(format!("thread {t} call {j} {}({op:?}): error {e} although the peer answers every request correctly and in order", op.name()));
                         return;
                     }
                     Ok(r) if !own_answer(op, t, &r) => {
-                        *err.lock().unwrap() = Some(format!("thread {t} call {j} {}({op:?}) returned {r:?}: the answer to another caller's request", op.name()));
+                        let _ = err.lock().unwrap().get_or_insert(format!("thread {t} call {j} {}({op:?}) returned {r:?}: the answer to another caller's request", op.name()));
                         return;
+                    }
+                    Ok(crate::feops::Ret::U64(v)) if matches!(op, FeOp::GetFeatures | FeOp::GetMaxMemSlots) => {
+                        // the peer tags each of these replies with a serial number: no reply may reach two callers
+                        let key = (v << 1) | matches!(op, FeOp::GetFeatures) as u64;
+                        if !tagged.lock().unwrap().insert(key) {
+                            let _ = err.lock().unwrap().get_or_insert(format!("thread {t} call {j} {}: the reply {v:#x} had already been returned to another call (each reply is sent once)", op.name()));
+                            return;
+                        }
                     }
                     _ => {}
                 }
@@ -744,14 +759,14 @@ pub fn run_fault_case(ctx: &mut Ctx, c: &FaultCase) -> Result<(), String> {
     let first = std::thread::Builder::new().name("c10_fault_first".into()).spawn(move || call(&ep, kind, 2, 0)).map_err(|e| e.to_string())?;
     // wait for the request to be on the wire
     let t0 = Instant::now();
-    while peer.frames.is_empty() && t0.elapsed() < BOUND {
+    while peer.frames.len() <= peer.answered && t0.elapsed() < BOUND {
         peer.poll();
         std::thread::sleep(Duration::from_micros(100));
     }
-    if peer.frames.is_empty() {
+    if peer.frames.len() <= peer.answered {
         return Err(format!("{c:?}: the request never reached the wire"));
     }
-    let code = peer.frames[0].code;
+    let code = peer.frames[peer.answered].code;
     match c.fault {
         Fault::Disconnect => {}
         Fault::WrongAnswer => {
@@ -786,6 +801,91 @@ pub fn run_fault_case(ctx: &mut Ctx, c: &FaultCase) -> Result<(), String> {
     ctx.class(&format!("fault_{:?}", c.fault));
     ctx.nontrivial(&("fault", c.endpoint, c.kind, c.fault));
     ctx.sample(|| json!({"fault_case": c, "first_call_result": format!("{r1:?}")}));
+    Ok(())
+}
+
+// ------------------------------------------------------------------ a signal while the answer is awaited
+
+#[derive(Serialize, Deserialize, Debug, Clone)]
+pub struct SignalCase {
+    pub endpoint: Endpoint,
+    pub kind: OpKind,
+    pub signals: u8,
+}
+
+extern "C" fn noop_handler(_: libc::c_int) {}
+
+/// A signal (handler installed without SA_RESTART) interrupts the thread that is blocked waiting for its answer.  The
+/// transaction stays whole: the call still returns its own answer once the peer sends it, and the next call on another
+/// clone gets its own answer too (nothing stale is left in the socket).
+pub fn run_signal_case(ctx: &mut Ctx, c: &SignalCase) -> Result<(), String> {
+    unsafe {
+        let mut sa: libc::sigaction = std::mem::zeroed();
+        sa.sa_sigaction = noop_handler as usize;
+        sa.sa_flags = 0; // no SA_RESTART: blocking system calls fail with EINTR
+        libc::sigemptyset(&mut sa.sa_mask);
+        libc::sigaction(libc::SIGUSR2, &sa, std::ptr::null_mut());
+    }
+    let (ep, mut peer) = make_endpoint(c.endpoint)?;
+    let ep2 = ep.clone();
+    let kind = c.kind;
+    let tid = Arc::new(std::sync::atomic::AtomicI32::new(0));
+    let t2 = tid.clone();
+    let first = std::thread::Builder::new()
+        .name("c10_sig_first".into())
+        .spawn(move || {
+            t2.store(unsafe { libc::gettid() }, Ordering::SeqCst);
+            call(&ep, kind, 2, 0)
+        })
+        .map_err(|e| e.to_string())?;
+    let t0 = Instant::now();
+    while peer.frames.len() <= peer.answered && t0.elapsed() < BOUND {
+        peer.poll();
+        std::thread::sleep(Duration::from_micros(100));
+    }
+    if peer.frames.len() <= peer.answered {
+        return Err(format!("{c:?}: the request never reached the wire"));
+    }
+    // the caller is blocked in its read: interrupt it
+    let t = tid.load(Ordering::SeqCst);
+    let t0 = Instant::now();
+    while !asleep(t, 4) && t0.elapsed() < BOUND {}
+    for _ in 0..c.signals.max(1) {
+        unsafe { libc::syscall(libc::SYS_tgkill, libc::getpid(), t, libc::SIGUSR2) };
+        std::thread::sleep(Duration::from_millis(2));
+    }
+    // now the peer answers
+    peer.answer_pending(c.endpoint);
+    let wait = |h: std::thread::JoinHandle<Result<Option<u32>, String>>, what: &str| -> Result<Result<Option<u32>, String>, String> {
+        let t0 = Instant::now();
+        while !h.is_finished() {
+            if t0.elapsed() > BOUND {
+                return Err(format!("{c:?}: {what} has not returned {BOUND:?} after the peer answered"));
+            }
+            std::thread::sleep(Duration::from_micros(200));
+        }
+        h.join().map_err(|_| format!("{c:?}: {what} panicked"))
+    };
+    match wait(first, "the interrupted call")? {
+        Ok(Some(v)) if v != 2 => return Err(format!("{c:?}: the interrupted call returned the answer to request {v}")),
+        Ok(_) => {}
+        Err(e) => return Err(format!("{c:?}: a signal delivered to the thread waiting for its answer made the call fail ({e}) although the peer answered; the transaction was abandoned half way")),
+    }
+    // a later call on another clone gets its own answer
+    let second = std::thread::Builder::new().name("c10_sig_second".into()).spawn(move || call(&ep2, kind, 4, 0)).map_err(|e| e.to_string())?;
+    let t0 = Instant::now();
+    while peer.frames.len() <= peer.answered && t0.elapsed() < BOUND && !second.is_finished() {
+        peer.poll();
+        std::thread::sleep(Duration::from_micros(100));
+    }
+    peer.answer_pending(c.endpoint);
+    match wait(second, "a later call on another clone")? {
+        Ok(Some(v)) if v != 4 => return Err(format!("{c:?}: after the interrupted call, the next caller received the answer to request {v} instead of its own")),
+        Ok(_) => {}
+        Err(e) => return Err(format!("{c:?}: after the interrupted call, the next call on another clone failed: {e}")),
+    }
+    ctx.class("signal_during_reply_wait");
+    ctx.nontrivial(&("signal", c.endpoint, c.kind, c.signals));
     Ok(())
 }
 
@@ -866,6 +966,20 @@ pub fn run(ctx: &mut Ctx) {
         }
     }
     ctx.enumerate("peer_fault_completion", faults, |ctx, c| run_fault_case(ctx, c));
+
+    // a signal interrupts the wait for the answer
+    let mut sigs = Vec::new();
+    for endpoint in [Endpoint::Frontend, Endpoint::BackendProxy, Endpoint::Gpu] {
+        for kind in kinds {
+            if !awaits(endpoint, kind) || (endpoint == Endpoint::Gpu && kind == OpKind::Reply2) {
+                continue;
+            }
+            for signals in [1u8, 3] {
+                sigs.push(SignalCase { endpoint, kind, signals });
+            }
+        }
+    }
+    ctx.enumerate("signal_during_reply_wait", sigs, |ctx, c| run_signal_case(ctx, c));
 
     // every answer-awaiting Frontend operation (27 of them: each send/receive helper of the endpoint is exercised), mixed
     // over clones, with and without negotiated acknowledgements
